@@ -101,7 +101,7 @@ def trace_owner(events, i, why):
     return "C02" if any(e["op"] == "begin" for e in prefix) else "C01"
 
 
-def trace_stage(chk, name, module, consts, specs, fixed_owner=None, batch=40):
+def trace_stage(chk, name, module, consts, specs, fixed_owner=None, batch=40, vtimeout=900):
     """Direction B: record executions of the real code with cmd/rnd, let TLC validate them against `module`.
     A rejected trace is a disagreement with the promise; it is attributed by the ownership rule, after blame by
     ablation (the same seeded history recorded again without the collector / without late operations)."""
@@ -119,7 +119,7 @@ def trace_stage(chk, name, module, consts, specs, fixed_owner=None, batch=40):
             cur, todo = todo[:batch], todo[batch:]
             sub = vlib.scratch("tv")
             try:
-                r, rej = vlib.validate_traces(module, consts, [p for _, p in cur], sub)
+                r, rej = vlib.validate_traces(module, consts, [p for _, p in cur], sub, timeout=vtimeout)
                 chk.states += r.distinct
                 chk.transitions += r.generated
                 chk.drift += getattr(r, "drift", 0)
@@ -1368,20 +1368,20 @@ def c17(chk):
                       # the same roots spelled with a trailing slash, a doubled slash, a /./ ; limits below the clamp
                       rootstyle=(i % 3 + 1) // 2, maxdir=[100, 100, 7, 0, 99][i % 5]) for i in range(3 if quick else 16)]
         trace_stage(chk, "walks_%droots" % nroots, "DirsTrace.tla",
-                    dict(Roots=set(range(1, nroots + 1)), Limit=100, MaxDirs=0, MaxSteps=0), specs, fixed_owner="C17")
+                    dict(Roots=set(range(1, nroots + 1)), Limit=100, MaxDirs=0, MaxSteps=0), specs, fixed_owner="C17", batch=4, vtimeout=2400)
     # several directories full at a reopen: writes only, a reopen every few dozen calls
     for nroots in (1, 2):
         specs = [dict(seed=vlib.seed() * 911 + i + 50 * nroots, steps=(700 if quick else 2000) * nroots, keys=4, maxtx=1, roots=nroots,
                       obs="false", ops="set,reopen", reopenafter=450 * nroots, uniquekeys="true",
                       rootstyle=(i + nroots) % 2, maxdir=[1, 100, 50][(i + nroots - 1) % 3]) for i in range(1 if quick else 6)]
         trace_stage(chk, "fill_and_reopen_%droots" % nroots, "DirsTrace.tla",
-                    dict(Roots=set(range(1, nroots + 1)), Limit=100, MaxDirs=0, MaxSteps=0), specs, fixed_owner="C17")
+                    dict(Roots=set(range(1, nroots + 1)), Limit=100, MaxDirs=0, MaxSteps=0), specs, fixed_owner="C17", batch=4, vtimeout=2400)
     # a directory fills up, loses half of its files to deletions and a collection, and must take files again
     for nroots in (1, 2):
         specs = [dict(seed=vlib.seed() * 1013 + i + 30 * nroots, steps=(800 if quick else 2400) * nroots, keys=4, maxtx=1, roots=nroots,
                       obs="false", ops="set,del,gc", waves=130 * nroots, rootstyle=(i + nroots + 1) % 2) for i in range(2 if quick else 6)]
         trace_stage(chk, "fill_drain_refill_%droots" % nroots, "DirsTrace.tla",
-                    dict(Roots=set(range(1, nroots + 1)), Limit=100, MaxDirs=0, MaxSteps=0), specs, fixed_owner="C17")
+                    dict(Roots=set(range(1, nroots + 1)), Limit=100, MaxDirs=0, MaxSteps=0), specs, fixed_owner="C17", batch=4, vtimeout=2400)
     chk.assumptions += ["the effective directory limit is 100 (configured as 100, or as 0, 1, 7, 50, 99, which Storage.Valid clamps to 100); the design-level check uses a limit of 2",
                         "'used again' is judged on recorded walks by starvation: a directory with room passed over by more than 30 k consecutive writes (k directories with room) is not being offered (probability of that under the uniform choice < 1e-13)",
                         "which offered directory receives a file is random in the code and is read from the recorded walk"]
